@@ -229,6 +229,24 @@ func goexitCounted() int {
 	return 3
 }
 
+// the callee panics and one of its deferred calls suspends; after the resumption a deferred call of the caller replaces
+// the panic and another one recovers the replacing panic: the caller returns, it does not go on after the call
+func innerPanics() int {
+	defer func() {
+		y.Y(30)
+		y.Tr(95)
+	}()
+	panic(21)
+}
+
+func outerReplaces() (r int) {
+	defer func() { r = 700 + pval(recover()) }()
+	defer func() { panic(22 + y.Y(31) - 31) }()
+	r = innerPanics()
+	y.Tr(96) // must not run
+	return 1000
+}
+
 func runScenario(k int, done chan int) {
 	y.Cur = k
 	defer func() {
@@ -263,6 +281,8 @@ func runScenario(k int, done chan int) {
 		y.Tr(goexitAfterResume())
 	case 11:
 		y.Tr(goexitCounted())
+	case 12:
+		y.Tr(outerReplaces())
 	}
 	println(k, "FIN")
 }
